@@ -106,7 +106,16 @@ def concretise(s, rng):
                 fk.append(L("OuterHeaderCreation", [4, 0] + octs(rng, 4) + octs(rng, 2)))
             if s["pol"]:
                 n = rng.randint(1, 20)
-                fk.append(L("ForwardingPolicy", [n] + [rng.randrange(97, 123) for _ in range(n)]))
+                pol = [rng.randrange(97, 123) for _ in range(n)]
+                c = rng.random()
+                if c < 0.25:
+                    # the identifier is an octet string: blanks, digits, capitals are part of it - also at its ends
+                    pol = [rng.choice([32, 9, 10, 48, 55, 65, 90, 95, 45, 126] + list(range(97, 123))) for _ in range(n)]
+                    if rng.random() < 0.6:
+                        pol[0] = rng.choice([32, 9])
+                    if rng.random() < 0.6:
+                        pol[-1] = rng.choice([32, 10, 9])
+                fk.append(L("ForwardingPolicy", [n] + pol))
             if s["smreq"]:
                 fk.append(L("PFCPSMReqFlags", [rng.randrange(8)]))
             kids.append(G("FwdParams" if s["create"] else "UpdFwdParams", fk))
